@@ -6,7 +6,7 @@ Pipeline (docs/C05.md):
   2. T-sym   : the constructors rpy2r (3 orders + aliases, rad/deg, scalar/vector form), eul2r, rot2, xyt2tr, angvec2r and
                the class constructors executed on symbols -> coq/gen/Traces_C05.v; the file also instantiates the hand
                models of theories/Model/C05_Angles.v with the regenerated thresholds (m_* definitions)
-  3. prove   : theories/Props/C05.v (fixed statements)
+  3. prove   : theories/Props/C05_a.v (constructors), C05_b.v (extraction) -- fixed statements
   4. T-num   : m_* (extracted, OCaml floats) vs base.tr2rpy / tr2eul / tr2xyt / SO2.theta at and around every singular
                value and exactly at / one ulp around every threshold, all orders, units, flip, SO(3)/SE(3) inputs
   5. oracle  : the property on the implementation: rebuild from extracted angles (1e-6), ranges, deg vs rad, base
@@ -551,7 +551,7 @@ def oracle_planar(ctx):
 
 
 def run(ctx):
-    ctx.rule = ("obligations: theorems of theories/Props/C05.v over the constructor traces and threshold constants regenerated from "
+    ctx.rule = ("obligations: theorems of theories/Props/C05_a.v, C05_b.v over the constructor traces and threshold constants regenerated from "
                 "/repo (+ the fixed lemma library Model/C05_Proofs.v they instantiate); evaluations: T-num cases (hand model vs "
                 "tr2rpy/tr2eul/tr2xyt/theta at and around every singular value and threshold) + oracle evaluations (rebuild, range, "
                 "deg/rad) on base functions and class methods; a case is distinct by (site, order/flip, singular value, offset, angles)")
